@@ -255,3 +255,21 @@ Theorem read_pmt_any_split c pid items :
   (exists n, concat (chunks items) = ser_unit c ++ repeatN 255 n) ->
   read_pmt (packetise pid items) pid = Ok (sec_result (sec c)).
 Proof. intros W P NE WI EQ. apply read_pmt_ok; try assumption. apply cuts_ok_no_pre. exact P. Qed.
+
+(* ---------- the cut condition of L4 is necessary: a packet boundary exactly at the end of the preceding section makes the
+   reader give up (the accumulator reports done there, the prefix holds no PMT, the continuation has no unit start) ---------- *)
+Definition ex_items_bad : list item :=
+  [ Mine k1_misc (ex_af 174) (takeN 9 ex_payload);
+    Mine k1_misc (ex_af (183 - (len ex_payload - 9))) (dropN 9 ex_payload) ].
+Theorem inner_end_cut_refuted :
+  exists c pid items,
+    wf_carrier c /\ sstreams (sec c) <> [] /\ Forall (wf_item pid) items /\ concat (chunks items) = ser_payload c /\
+    inner_end c (len (concat (chunks (firstn 1 items)))) /\
+    read_pmt (packetise pid items) pid = Err E.NoPayloadUnitStartIndicator.
+Proof. exists ex_carrier, 481, ex_items_bad. split; [exact ex_wf|]. split; [discriminate|]. split.
+  { unfold ex_items_bad.
+    apply Forall_cons; [apply ex_mine; [lia|vm_compute; reflexivity|vm_compute; reflexivity]|].
+    apply Forall_cons; [apply ex_mine; [vm_compute; discriminate|vm_compute; reflexivity|vm_compute; reflexivity]|]. constructor. }
+  split; [vm_compute; reflexivity|]. split.
+  - exists 1%nat. split; [cbn; lia|vm_compute; reflexivity].
+  - vm_compute. reflexivity. Qed.
